@@ -160,7 +160,7 @@ def filter_list():
     return [(n, a) for n, a in fl if n not in skip]
 
 CANARIES = ["@D@/canary/secret", "@D@/canary/new-file", "file://@D@/canary/secret", "http://127.0.0.1:9/x", "127.0.0.1:9", "$(touch @D@/canary/pwned)", "`touch @D@/canary/pwned`", "| touch @D@/canary/pwned", "; touch @D@/canary/pwned",
-            "../canary/secret", "~/canary", "/etc/passwd", "/dev/tcp/127.0.0.1/9", "canary/secret\u0000x", "!include @D@/canary/secret", "<!ENTITY x SYSTEM \"file://@D@/canary/secret\">"]
+            "../canary/secret", "~/canary", "/etc/passwd", "/dev/tcp/127.0.0.1/9", "canary/secret\u0001x","!include @D@/canary/secret", "<!ENTITY x SYSTEM \"file://@D@/canary/secret\">"]
 
 def native_batches():
     cases = []
